@@ -77,7 +77,7 @@ def _dump(g) -> Dict[str, Any]:
             bd = g.get_critical_path_breakdown()
             out["breakdown"] = sorted([[None if C.isnan(r["event_idx"]) else int(r["event_idx"]), C.num(r["duration"]), r["type"], str(r["bound_by"]),
                                         None if C.isnan(r["stream"]) else int(r["stream"]), str(r["s_name"])] for r in bd.to_dict("records")], key=str)
-            out["summary"] = {str(k): round(float(v), 9) for k, v in g.summary().items()}
+            out["summary"] = {str(k): ("nan" if C.isnan(v) else round(float(v), 9)) for k, v in g.summary().items()}
     except Exception as e:  # noqa: BLE001
         out["breakdown"] = "raises " + C.exc_name(e) + ": " + str(e)[:100]
     return out
